@@ -199,6 +199,63 @@ def wide_failure(n):
     return None
 
 
+def truthy_failure(fl):
+    """The boolean flags given as equal non-bool values (1 / 0, numpy.bool_): the constructor
+    accepts them, so they mean what True / False mean."""
+    import numpy as np
+    from pymbolic.mapper.dependency import CachedDependencyMapper, DependencyMapper
+
+    from vf.spec import CSE, Call, Look, Prod, Sub, Sum
+    x, y = V("x"), V("y")
+    spec = Sum(Sub(V("arr"), Sum(x, C(1))), Look(V("obj"), "a"), Call(V("f"), Prod(x, y)),
+               ("CallWithKwargs", V("g"), ("tuple", x), ("map", ("k", y))), CSE(Sum(x, y), "p"))
+    want = {sort_maps(w) for w in ref_dependencies(spec, dict(fl))}
+    for style in ("int", "numpy"):
+        conv = (lambda v: int(v)) if style == "int" else (lambda v: np.bool_(v))
+        kw = {k: (conv(v) if isinstance(v, bool) else v) for k, v in fl.items()
+              if k != "composite_leaves"}
+        for cls in (DependencyMapper, CachedDependencyMapper):
+            try:
+                got = {sort_maps(to_spec(g)) for g in cls(**kw)(build(spec))}
+            except AssertionError:
+                continue            # the constructor refused the value: nothing is claimed
+            if got != want:
+                return ("truthy-flag", f"{cls.__name__} with {style} flags {kw}: "
+                        f"{sorted(show(g) for g in got)}, with bools "
+                        f"{sorted(show(w) for w in want)}")
+    return None
+
+
+def polynode_failure(i):
+    """Polynomial nodes (unhashable: plain analyses only): the coefficients are expressions and
+    are analysed, the exponents are not."""
+    import pymbolic.primitives as p
+    from pymbolic.mapper.dependency import DependencyMapper
+    from pymbolic.polynomial import Polynomial
+    x, y, z = p.Variable("x"), p.Variable("y"), p.Variable("z")
+    ai = p.Subscript(p.Variable("a"), p.Variable("i"))
+    polys = [
+        (Polynomial(x, ((0, p.Product((y, z))), (2, p.Sum((z, 1))), (3, ai))), {x, y, z, ai}),
+        (Polynomial(x, ((1, y),)), {x, y}),
+        (Polynomial(p.Sum((x, y)), ((0, 5), (4, z))), {x, y, z}),
+        (Polynomial(x, ((0, 1), (1, 2))), {x}),
+    ]
+    poly, want = polys[i]
+    for wrap in (lambda q: q, lambda q: p.Sum((q, p.Variable("w")))):
+        e = wrap(poly)
+        w = set(want) | ({p.Variable("w")} if e is not poly else set())
+        try:
+            got = DependencyMapper()(e)
+        except RecursionError:
+            raise
+        except Exception as ex:  # noqa: BLE001
+            return ("polynomial", f"dependency analysis of {e!r} raised {ex!r}")
+        if got != w:
+            return ("polynomial", f"dependencies of {e!r}: {sorted(map(str, got))}, expected "
+                    f"{sorted(map(str, w))}")
+    return None
+
+
 _IFPOS = {}
 
 
@@ -436,6 +493,8 @@ def analyse(spec, r=None):
 
 class C09(Check):
     pid = "C09"
+    # the analyses memoize: python -O must not change what they return
+    interp_modes = {"quick": ["", "-O"], "thorough": ["", "-O"]}
     level = "exploration"
     rule = ("bounded-exhaustive: every constructor shape (all node types with a handler) with "
             "every leaf combination, every (parent, position, child) nesting, three-level chains "
@@ -447,7 +506,9 @@ class C09(Check):
             "(closed-form node count, flops, dependencies); Fraction constants before / while / after "
             "Fraction is registered as a constant class at run time; instances whose four include_* "
             "attributes are set after construction (24 settings x 3 starting configurations); a user "
-            "if_positive node with criterion / branches from a pool with a shared wrapper (27); "
+            "if_positive node with criterion / branches from a pool with a shared wrapper (27); the "
+            "boolean flags given as 1 / 0 and numpy.bool_; polynomial nodes with expression "
+            "coefficients; the whole check also under python -O; "
             "histories of 10 expressions (the caller adds an element to every set a plain analysis "
             "returns; the include_calls option is an equal, non-interned string) on ONE analysis instance (plain and cached dependency "
             "mapper under 4 flag settings, flop counter), each result compared with a fresh "
@@ -476,6 +537,9 @@ class C09(Check):
                                                     else (300, 1100, 2100)))),
             ("registered-constant-class", self.gen_regconst),
             ("if-positive", lambda: (("ifpos", i) for i in range(27))),
+            ("truthy-flags", lambda: (("truthy", i) for i in range(len(FLAGS))
+                                      if FLAGS[i]["composite_leaves"] is None)),
+            ("polynomial-nodes", lambda: (("polynode", i) for i in range(4))),
             ("reconfigured", lambda: (("reconf", i) for i in range(len(FLAGS))
                                       if FLAGS[i]["composite_leaves"] is None)),
             ("instance-histories", self.gen_histories),
@@ -568,6 +632,20 @@ class C09(Check):
             f = wide_failure(item[1])
             if f:
                 r.fail(f[0], f"{f[0]}|n={item[1]}", f[1])
+            return r
+        if item[0] == "truthy":
+            r.evals += 1
+            r.keys.append(item)
+            f = truthy_failure(FLAGS[item[1]])
+            if f:
+                r.fail(f[0], f"{f[0]}|{sorted((k, str(v)) for k, v in FLAGS[item[1]].items())}", f[1])
+            return r
+        if item[0] == "polynode":
+            r.evals += 1
+            r.keys.append(item)
+            f = polynode_failure(item[1])
+            if f:
+                r.fail(f[0], f"{f[0]}|polynomial {item[1]}", f[1])
             return r
         if item[0] == "ifpos":
             r.evals += 1
